@@ -9,6 +9,8 @@
 #include <cstdio>
 #include <cstdlib>
 #include <cstring>
+#include <new>
+#include <regex>
 #include <string>
 #include <vector>
 
@@ -41,6 +43,11 @@ inline std::size_t obj_size     = 0;
 inline unsigned char before[4096];
 inline bool unmodified          = false;
 inline std::string file;
+inline unsigned char const* guard_a = nullptr;
+inline unsigned char const* guard_b = nullptr;
+inline std::size_t guard_n = 0;
+inline bool with_expr = false;   // probes whose model leg also names the check that fires (expression text)
+inline std::string expr;
 } // namespace probe
 
 namespace etl {
@@ -50,9 +57,21 @@ template <typename Assertion>
     if (!probe::armed) { std::fprintf(stderr, "contract outside probe: %s:%d\n", msg.file, msg.line); std::_Exit(70); }
     // snapshot comparison happens HERE, i.e. at the moment the handler runs
     probe::unmodified = probe::obj == nullptr || std::memcmp(probe::obj, probe::before, probe::obj_size) == 0;
+    for (std::size_t i = 0; i < probe::guard_n; ++i) {
+        if (probe::guard_a[i] != 0xA5 || probe::guard_b[i] != 0xA5) { probe::unmodified = false; }
+    }
+    if (char const* log = std::getenv("VERIF_C05_SITELOG")) {   // coverage aid: which sites did the probes reach
+        if (FILE* fp = std::fopen(log, "a")) { std::fprintf(fp, "%s:%d\n", msg.file != nullptr ? msg.file : "?", msg.line); std::fclose(fp); }
+    }
     std::string f = msg.file != nullptr ? msg.file : "?";
     auto slash  = f.find_last_of('/');
     probe::file = slash == std::string::npos ? f : f.substr(slash + 1);
+    // the failing location the handler is given: file, a positive line, and the expression text "(<expr>)"
+    std::string e = msg.expression != nullptr ? msg.expression : "?";
+    if (e.size() >= 2 && e.front() == '(' && e.back() == ')') { e = e.substr(1, e.size() - 2); }
+    for (auto& ch : e) { if (ch == ' ') { ch = '_'; } }
+    probe::expr = msg.line > 0 ? e : "?noline";
+    if (probe::with_expr) { probe::file += " " + probe::expr; }
     std::longjmp(probe::jmp, 1);
 }
 } // namespace etl
@@ -86,6 +105,31 @@ static void watch_none(Out& out, F&& f)
     probe::obj = nullptr;
     probe::armed = true;
     if (setjmp(probe::jmp) == 0) { f(); out.tok("ok"); } else { out.tok("contract").b(true).tok("#").tok(probe::file); }
+    probe::armed = false;
+}
+// construct an object by placement new in the middle of an arena whose guard bytes (GUARD on each side) are
+// compared at the moment the handler runs: a constructor that writes outside its own object before the check fires
+// shows up as "contract 0"
+template <typename T, typename F>
+static void watch_ctor(Out& out, F&& construct)
+{
+    constexpr std::size_t GUARD = 64;
+    struct Arena { unsigned char lo[GUARD]; alignas(T) unsigned char obj[sizeof(T)]; unsigned char hi[GUARD]; };
+    static Arena arena;
+    static Arena pattern;
+    std::memset(&arena, 0xA5, sizeof(Arena));
+    std::memset(&pattern, 0xA5, sizeof(Arena));
+    probe::obj = nullptr;
+    probe::armed = true;
+    probe::guard_a = arena.lo; probe::guard_b = arena.hi; probe::guard_n = GUARD;
+    if (setjmp(probe::jmp) == 0) {
+        construct(static_cast<void*>(arena.obj));
+        bool clean = std::memcmp(arena.lo, pattern.lo, GUARD) == 0 && std::memcmp(arena.hi, pattern.hi, GUARD) == 0;
+        out.tok(clean ? "ok" : "ok-but-wrote-outside");
+    } else {
+        out.tok("contract").b(probe::unmodified).tok("#").tok(probe::file);
+    }
+    probe::guard_a = nullptr; probe::guard_b = nullptr; probe::guard_n = 0;
     probe::armed = false;
 }
 // the property: a violation makes the handler run with the object unmodified ("contract 1"), a valid call does not
@@ -123,11 +167,53 @@ static void bitset_probe(std::string const& which, u64 pos, Out& impl)
         else if (which == "ureset") { etl::basic_bitset<N, unsigned char> bb; bb.unchecked_reset(pos); }
         else if (which == "uflip") { etl::basic_bitset<N, unsigned char> bb; bb.unchecked_flip(pos); }
         else if (which == "utest") { etl::basic_bitset<N, unsigned char> bb; sink = bb.unchecked_test(pos); }
+        else if (which == "cbidx") { etl::basic_bitset<N, unsigned char> const bb; sink = bb[pos]; }
         else { etl::basic_bitset<N, unsigned char> bb; sink = bb[pos]; }
     });
 }
 
 // ---- vector probes: initial content 1..k in a static_vector<int,4> / inplace_vector<int,4>
+// element type with a non-trivial destructor (selects static_vector's non-trivial storage); bytes comparable
+struct NT {
+    int v = 0;
+    NT() = default;
+    NT(int x) : v{x} { }
+    NT(NT const& o) : v{o.v} { }
+    auto operator=(NT const& o) -> NT& { v = o.v; return *this; }
+    ~NT() { v = v; }
+    operator int() const { return v; }
+};
+
+// static_vector<int, 0> (zero-size storage) and static_vector<NT, 4> (non-trivial storage): the operations whose checks
+// live in the storage classes
+template <typename V, std::size_t Cap>
+static void vec_storage_probe(Toks& in, Out& impl, Out& ref)
+{
+    auto k  = in.num();
+    auto op = in.str();
+    u64 n   = in.more() ? in.sz() : 0ULL;
+    V v;
+    if constexpr (Cap > 0) { for (int i = 1; i <= k; ++i) { v.push_back(i); } } else { k = 0; }
+    u64 sz = static_cast<u64>(k);
+    watch(impl, v, [&] {
+        if (op == "pb") { v.push_back(9); }
+        else if (op == "eb") { v.emplace_back(9); }
+        else if (op == "pop") { v.pop_back(); }
+        else if (op == "rsz") { v.resize(static_cast<std::size_t>(n)); }
+        else if (op == "fr") { sink = static_cast<int>(v.front()); }
+        else if (op == "bk") { sink = static_cast<int>(v.back()); }
+        else if (op == "cbk") { sink = static_cast<int>(static_cast<V const&>(v).back()); }
+        else if (op == "cfr") { sink = static_cast<int>(static_cast<V const&>(v).front()); }
+        else if (op == "at") { sink = static_cast<int>(v[static_cast<std::size_t>(n)]); }
+    });
+    bool pre = true;
+    if (op == "pb" || op == "eb") { pre = sz < Cap; }
+    else if (op == "pop" || op == "fr" || op == "bk" || op == "cbk" || op == "cfr") { pre = sz >= 1; }
+    else if (op == "rsz") { pre = n <= Cap; }
+    else if (op == "at") { pre = n < sz; }
+    doc(ref, pre);
+}
+
 static void vec_probe(Toks& in, Out& impl, Out& ref)
 {
     auto k  = in.num();
@@ -162,13 +248,15 @@ static void vec_probe(Toks& in, Out& impl, Out& ref)
         else if (op == "cat") { sink = static_cast<etl::static_vector<int, 4> const&>(v)[static_cast<std::size_t>(U(0))]; }
         else if (op == "fr") { sink = v.front(); }
         else if (op == "bk") { sink = v.back(); }
+        else if (op == "cbk") { sink = static_cast<etl::static_vector<int, 4> const&>(v).back(); }
+        else if (op == "cfr") { sink = static_cast<etl::static_vector<int, 4> const&>(v).front(); }
         else if (op == "ctor_n") { etl::static_vector<int, 4> w(static_cast<std::size_t>(U(0))); sink = static_cast<long long>(w.size()); }
         else if (op == "ctor_nv") { etl::static_vector<int, 4> w(static_cast<std::size_t>(U(0)), 3); sink = static_cast<long long>(w.size()); }
         else if (op == "ctor_rg") { etl::static_vector<int, 4> w(src, src + A(0)); sink = static_cast<long long>(w.size()); }
     });
     auto pos_ok = [&](long long p) { return p >= 0 && static_cast<u64>(p) <= sz; };
     if (op == "pb" || op == "eb") { pre = room >= 1; }
-    else if (op == "pop" || op == "fr" || op == "bk") { pre = sz >= 1; }
+    else if (op == "pop" || op == "fr" || op == "bk" || op == "cbk" || op == "cfr") { pre = sz >= 1; }
     else if (op == "icr" || op == "irv" || op == "emp") { pre = pos_ok(A(0)) && room >= 1; }
     else if (op == "inn") { pre = pos_ok(A(0)) && U(1) <= room; }
     else if (op == "irg") { pre = pos_ok(A(0)) && A(1) >= 0 && static_cast<u64>(A(1)) <= room; }
@@ -193,6 +281,9 @@ static void ivec_probe_n(long long k, std::string const& op, u64 arg, Out& impl)
         else if (op == "cat") { sink = static_cast<etl::inplace_vector<int, N> const&>(v)[static_cast<std::size_t>(arg)]; }
         else if (op == "fr") { sink = v.front(); }
         else if (op == "bk") { sink = v.back(); }
+        else if (op == "cfr") { sink = static_cast<etl::inplace_vector<int, N> const&>(v).front(); }
+        else if (op == "cbk") { sink = static_cast<etl::inplace_vector<int, N> const&>(v).back(); }
+        else if (op == "upbc") { int const c = 9; v.unchecked_push_back(c); }
         else if (op == "tpb") { sink = v.try_push_back(9) != nullptr; }
     });
 }
@@ -203,12 +294,15 @@ static void ivec_probe_n(long long k, std::string const& op, u64 arg, Out& impl)
 static char const SRC[] = "uvwxyz0123456789ABCDEFGHIJ";   // 26 characters
 static constexpr u64 SRCLEN = 26;
 
-template <std::size_t Cap>
+template <std::size_t Cap, typename C>
 static bool str_probe_n(long long k, std::string const& op, std::vector<u64> const& a, Out& impl, Out& ref)
 {
-    using S  = etl::inplace_string<Cap>;
-    using SV = etl::string_view;
-    static char const init[] = "abcdefghijklmnopqrst";
+    using S  = etl::basic_inplace_string<C, Cap>;
+    using SV = etl::basic_string_view<C>;
+    static C init[21];
+    static C SRCC[27];
+    for (int i = 0; i < 21; ++i) { init[i] = static_cast<C>("abcdefghijklmnopqrst"[i]); }
+    for (int i = 0; i < 27; ++i) { SRCC[i] = static_cast<C>(SRC[i]); }
     S s(init, static_cast<std::size_t>(k));
     u64 const size = static_cast<u64>(k);
     u64 const cap  = Cap;
@@ -216,17 +310,17 @@ static bool str_probe_n(long long k, std::string const& op, std::vector<u64> con
     auto Z = [&](std::size_t i) -> std::size_t { return static_cast<std::size_t>(A(i)); };
     auto minu = [](u64 x, u64 y) { return x < y ? x : y; };
     // a C string holding the first n characters of SRC
-    char cbuf[32] = {};
-    auto cstr = [&](u64 n) -> char const* { std::memcpy(cbuf, SRC, static_cast<std::size_t>(minu(n, SRCLEN))); cbuf[minu(n, SRCLEN)] = 0; return cbuf; };
+    C cbuf[32] = {};
+    auto cstr = [&](u64 n) -> C const* { for (u64 i = 0; i < minu(n, SRCLEN); ++i) { cbuf[i] = SRCC[i]; } cbuf[minu(n, SRCLEN)] = C(0); return cbuf; };
     bool pre = true;
     bool known = true;
     auto run = [&](auto&& f) { watch(impl, s, f); };
-    if (op == "ctor_ptr") { watch_none(impl, [&] { S t(SRC, Z(0)); sink = static_cast<long long>(t.size()); }); pre = A(0) <= cap; }
-    else if (op == "ctor_fill") { watch_none(impl, [&] { S t(Z(0), 'z'); sink = static_cast<long long>(t.size()); }); pre = A(0) <= cap; }
+    if (op == "ctor_ptr") { watch_ctor<S>(impl, [&](void* at) { auto* t = new (at) S(SRCC, Z(0)); sink = static_cast<long long>(t->size()); }); pre = A(0) <= cap; }
+    else if (op == "ctor_fill") { watch_ctor<S>(impl, [&](void* at) { auto* t = new (at) S(Z(0), C('z')); sink = static_cast<long long>(t->size()); }); pre = A(0) <= cap; }
     else if (op == "asg_cstr") { auto const* c = cstr(A(0)); run([&] { s = c; }); pre = A(0) <= cap; }
-    else if (op == "asg_fill") { run([&] { s.assign(Z(0), 'z'); }); pre = A(0) <= cap; }
-    else if (op == "asg_ptr") { run([&] { s.assign(SRC, Z(0)); }); pre = A(0) <= cap; }
-    else if (op == "asg_view_sub") { SV v(SRC, Z(0)); run([&] { s.assign(v, Z(1), Z(2)); }); pre = A(1) <= A(0) && minu(A(2), A(0) - A(1)) <= cap; }
+    else if (op == "asg_fill") { run([&] { s.assign(Z(0), C('z')); }); pre = A(0) <= cap; }
+    else if (op == "asg_ptr") { run([&] { s.assign(SRCC, Z(0)); }); pre = A(0) <= cap; }
+    else if (op == "asg_view_sub") { SV v(SRCC, Z(0)); run([&] { s.assign(v, Z(1), Z(2)); }); pre = A(1) <= A(0) && minu(A(2), A(0) - A(1)) <= cap; }
     else if (op == "front") { run([&] { sink = s.front(); }); pre = size > 0; }
     else if (op == "cfront") { run([&] { sink = static_cast<S const&>(s).front(); }); pre = size > 0; }
     else if (op == "back") { run([&] { sink = s.back(); }); pre = size > 0; }
@@ -241,31 +335,32 @@ static bool str_probe_n(long long k, std::string const& op, std::vector<u64> con
     }
     else if (op == "era_pos") { run([&] { s.erase(s.cbegin() + static_cast<long long>(A(0))); }); pre = A(0) < size; }
     else if (op == "era") { run([&] { s.erase(Z(0), Z(1)); }); pre = A(0) <= size; }
-    else if (op == "pb") { run([&] { s.push_back('z'); }); pre = size < cap; }
+    else if (op == "pb") { run([&] { s.push_back(C('z')); }); pre = size < cap; }
     else if (op == "pop") { run([&] { s.pop_back(); }); pre = size > 0; }
-    else if (op == "ins_fill") { run([&] { s.insert(Z(0), Z(1), 'z'); }); pre = A(0) <= size; }
+    else if (op == "ins_fill") { run([&] { s.insert(Z(0), Z(1), C('z')); }); pre = A(0) <= size; }
     else if (op == "ins_cstr") { auto const* c = cstr(A(1)); run([&] { s.insert(Z(0), c); }); pre = A(0) <= size; }
-    else if (op == "ins_ptr") { run([&] { s.insert(Z(0), SRC, Z(1)); }); pre = A(0) <= size; }
-    else if (op == "ins_str") { S o(SRC, Z(1)); run([&] { s.insert(Z(0), o); }); pre = A(0) <= size; }
-    else if (op == "ins_str_sub") { S o(SRC, Z(1)); run([&] { s.insert(Z(0), o, Z(2), Z(3)); }); pre = A(0) <= size && A(2) <= A(1); }
-    else if (op == "ins_view") { SV v(SRC, Z(1)); run([&] { s.insert(Z(0), v); }); pre = A(0) <= size; }
-    else if (op == "ins_view_sub") { SV v(SRC, Z(1)); run([&] { s.insert(Z(0), v, Z(2), Z(3)); }); pre = A(0) <= size && A(2) <= A(1); }
-    else if (op == "rep") { S o(SRC, Z(2)); run([&] { s.replace(Z(0), Z(1), o); }); pre = A(0) <= size; }
-    else if (op == "rep5") { S o(SRC, Z(2)); run([&] { s.replace(Z(0), Z(1), o, Z(3), Z(4)); }); pre = A(0) <= size && A(3) <= A(2); }
-    else if (op == "rep_ptr") { run([&] { s.replace(Z(0), Z(1), SRC, Z(2)); }); pre = A(0) <= size; }
+    else if (op == "ins_ptr") { run([&] { s.insert(Z(0), SRCC, Z(1)); }); pre = A(0) <= size; }
+    else if (op == "ins_str") { S o(SRCC, Z(1)); run([&] { s.insert(Z(0), o); }); pre = A(0) <= size; }
+    else if (op == "ins_str_sub") { S o(SRCC, Z(1)); run([&] { s.insert(Z(0), o, Z(2), Z(3)); }); pre = A(0) <= size && A(2) <= A(1); }
+    else if (op == "ins_view") { SV v(SRCC, Z(1)); run([&] { s.insert(Z(0), v); }); pre = A(0) <= size; }
+    else if (op == "ins_view_sub") { SV v(SRCC, Z(1)); run([&] { s.insert(Z(0), v, Z(2), Z(3)); }); pre = A(0) <= size && A(2) <= A(1); }
+    else if (op == "rep") { S o(SRCC, Z(2)); run([&] { s.replace(Z(0), Z(1), o); }); pre = A(0) <= size; }
+    else if (op == "rep5") { S o(SRCC, Z(2)); run([&] { s.replace(Z(0), Z(1), o, Z(3), Z(4)); }); pre = A(0) <= size && A(3) <= A(2); }
+    else if (op == "rep_ptr") { run([&] { s.replace(Z(0), Z(1), SRCC, Z(2)); }); pre = A(0) <= size; }
     else if (op == "rep_cstr") { auto const* c = cstr(A(2)); run([&] { s.replace(Z(0), Z(1), c); }); pre = A(0) <= size; }
-    else if (op == "app_view_sub") { SV v(SRC, Z(0)); run([&] { s.append(v, Z(1), Z(2)); }); pre = A(1) <= A(0); }
-    else if (op == "app_str") { S o(SRC, Z(0)); run([&] { s.append(o); }); pre = size + A(0) <= cap; }
+    else if (op == "app_view_sub") { SV v(SRCC, Z(0)); run([&] { s.append(v, Z(1), Z(2)); }); pre = A(1) <= A(0); }
+    else if (op == "app_str") { S o(SRCC, Z(0)); run([&] { s.append(o); }); pre = size + A(0) <= cap; }
     else if (op == "app_str_sub") {
-        S o(SRC, Z(0)); run([&] { s.append(o, Z(1), Z(2)); });
+        S o(SRCC, Z(0)); run([&] { s.append(o, Z(1), Z(2)); });
         pre = A(1) > A(0) || size + minu(A(2), A(0) - A(1)) <= cap;
     }
-    else if (op == "app_rng") { run([&] { s.append(SRC, SRC + A(0)); }); pre = size + A(0) <= cap; }
-    else if (op == "pluseq_str") { S o(SRC, Z(0)); run([&] { s += o; }); pre = size + A(0) <= cap; }
+    else if (op == "app_rng") { run([&] { s.append(SRCC, SRCC + A(0)); }); pre = size + A(0) <= cap; }
+    else if (op == "app_rng_rev") { run([&] { s.append(SRCC + A(0), SRCC); }); pre = A(0) == 0; }
+    else if (op == "pluseq_str") { S o(SRCC, Z(0)); run([&] { s += o; }); pre = size + A(0) <= cap; }
     // operations without a precondition (they clamp): the handler must stay silent for EVERY argument
-    else if (op == "app_fill") { run([&] { s.append(Z(0), 'z'); }); }
-    else if (op == "app_ptr") { run([&] { s.append(SRC, Z(0)); }); }
-    else if (op == "resize") { run([&] { s.resize(Z(0), 'z'); }); }
+    else if (op == "app_fill") { run([&] { s.append(Z(0), C('z')); }); }
+    else if (op == "app_ptr") { run([&] { s.append(SRCC, Z(0)); }); }
+    else if (op == "resize") { run([&] { s.resize(Z(0), C('z')); }); }
     else if (op == "substr") { run([&] { sink = static_cast<long long>(s.substr(Z(0), Z(1)).size()); }); }
     else if (op == "clear") { run([&] { s.clear(); }); }
     else { known = false; }
@@ -278,8 +373,19 @@ static bool str_probe(Toks& in, Out& impl, Out& ref)
     auto cap = in.num(); auto k = in.num(); auto op = in.str();
     std::vector<u64> a;
     while (in.more()) { a.push_back(in.sz()); }
-    if (cap == 4) { return str_probe_n<4>(k, op, a, impl, ref); }
-    return str_probe_n<20>(k, op, a, impl, ref);
+    if (cap == 4) { return str_probe_n<4, char>(k, op, a, impl, ref); }
+    if (cap == 15) { return str_probe_n<15, char>(k, op, a, impl, ref); }
+    if (cap == 16) { return str_probe_n<16, char>(k, op, a, impl, ref); }
+    return str_probe_n<20, char>(k, op, a, impl, ref);
+}
+
+static bool wstr_probe(Toks& in, Out& impl, Out& ref)
+{
+    auto cap = in.num(); auto k = in.num(); auto op = in.str();
+    std::vector<u64> a;
+    while (in.more()) { a.push_back(in.sz()); }
+    if (cap == 15) { return str_probe_n<15, wchar_t>(k, op, a, impl, ref); }
+    return str_probe_n<16, wchar_t>(k, op, a, impl, ref);
 }
 
 // ---- the remaining components
@@ -427,7 +533,9 @@ static bool more_probe(std::string const& op, Toks& in, Out& impl, Out& ref)
         char outbuf[256];
         Ctx ctx{outbuf};
         watch_none(impl, [&] { etl::detail::format_escaped_sequences(etl::string_view(text.data(), text.size()), ctx); sink = outbuf[0]; });
-        ref.tok("na");
+        // documented form, as a regular expression: (plain "{{" inner "}}")* tail, tail = no '{' or its first '{' is not followed by '{'
+        static std::regex const well_formed(R"((?:[^{]*\{\{[^}]*\}\})*(?:[^{]*|[^{]*\{(?:[^{][\s\S]*)?))");
+        doc(ref, std::regex_match(text, well_formed));
         return true;
     }
     return false;
@@ -435,16 +543,22 @@ static bool more_probe(std::string const& op, Toks& in, Out& impl, Out& ref)
 
 bool vh::run_case(std::string const& op, Toks& in, Out& impl, Out& ref)
 {
+    // every probe names the check that fires (expression text) except the vector families, whose model (C01) has a
+    // single Contract outcome
+    probe::with_expr = !(op == "vec" || op == "vec0" || op == "vecnt" || op == "ivec");
     if (op == "str") { return str_probe(in, impl, ref); }
+    if (op == "wstr") { return wstr_probe(in, impl, ref); }
     if (op == "sset" || op == "cpy" || op == "linalg" || op == "sstride" || op == "bsstr" || op == "tostr" || op == "fmt" || op == "exparrow" || op == "arrfb") { return more_probe(op, in, impl, ref); }
     if (op == "vec") { vec_probe(in, impl, ref); return true; }
+    if (op == "vec0") { vec_storage_probe<etl::static_vector<int, 0>, 0>(in, impl, ref); return true; }
+    if (op == "vecnt") { vec_storage_probe<etl::static_vector<NT, 4>, 4>(in, impl, ref); return true; }
     if (op == "ivec") {
         auto cap = in.num(); auto k = in.num(); auto o = in.str(); auto arg = in.sz();
         if (cap == 0) { ivec_probe_n<0>(0, o, arg, impl); k = 0; } else { ivec_probe_n<4>(k, o, arg, impl); }
         u64 sz = static_cast<u64>(k); u64 c = static_cast<u64>(cap);
         bool pre = true;
-        if (o == "upb" || o == "ueb") { pre = sz < c; }
-        else if (o == "pop" || o == "fr" || o == "bk") { pre = sz >= 1; }
+        if (o == "upb" || o == "ueb" || o == "upbc") { pre = sz < c; }
+        else if (o == "pop" || o == "fr" || o == "bk" || o == "cfr" || o == "cbk") { pre = sz >= 1; }
         else if (o == "at" || o == "cat") { pre = arg < sz; }
         doc(ref, pre);
         return true;
@@ -510,6 +624,7 @@ bool vh::run_case(std::string const& op, Toks& in, Out& impl, Out& ref)
         if (o == "ref") { watch(impl, r, [&] { sink = *r; }); }
         else if (o == "cderef") { watch(impl, x, [&] { sink = *static_cast<etl::optional<int> const&>(x); }); }
         else if (o == "rderef") { watch(impl, x, [&] { sink = *etl::move(x); }); }
+        else if (o == "crderef") { watch(impl, x, [&] { sink = *etl::move(static_cast<etl::optional<int> const&>(x)); }); }
         else { watch(impl, x, [&] { sink = *x; }); }
         doc(ref, engaged);
         return true;
@@ -519,6 +634,10 @@ bool vh::run_case(std::string const& op, Toks& in, Out& impl, Out& ref)
         etl::expected<int, long> e = hasv ? etl::expected<int, long>(etl::in_place, 4) : etl::expected<int, long>(etl::unexpect, 7L);
         if (o == "deref") { watch(impl, e, [&] { sink = *e; }); doc(ref, hasv); }
         else if (o == "cderef") { watch(impl, e, [&] { sink = *static_cast<etl::expected<int, long> const&>(e); }); doc(ref, hasv); }
+        else if (o == "rderef") { watch(impl, e, [&] { sink = *etl::move(e); }); doc(ref, hasv); }
+        else if (o == "crderef") { watch(impl, e, [&] { sink = *etl::move(static_cast<etl::expected<int, long> const&>(e)); }); doc(ref, hasv); }
+        else if (o == "rerror") { watch(impl, e, [&] { sink = etl::move(e).error(); }); doc(ref, !hasv); }
+        else if (o == "crerror") { watch(impl, e, [&] { sink = etl::move(static_cast<etl::expected<int, long> const&>(e)).error(); }); doc(ref, !hasv); }
         else if (o == "error") { watch(impl, e, [&] { sink = e.error(); }); doc(ref, !hasv); }
         else { watch(impl, e, [&] { sink = static_cast<etl::expected<int, long> const&>(e).error(); }); doc(ref, !hasv); }
         return true;
@@ -527,12 +646,22 @@ bool vh::run_case(std::string const& op, Toks& in, Out& impl, Out& ref)
         auto active = in.num(); auto o = in.str(); auto i = in.num();
         etl::variant<int, char, long> v;
         if (active == 1) { v = 'c'; } else if (active == 2) { v = 5L; }
+        using V = etl::variant<int, char, long>;
+        auto sub = [&](auto&& vv) {
+            if (i == 0) { sink = etl::forward<decltype(vv)>(vv)[etl::index_v<0>]; } else if (i == 1) { sink = etl::forward<decltype(vv)>(vv)[etl::index_v<1>]; } else { sink = etl::forward<decltype(vv)>(vv)[etl::index_v<2>]; }
+        };
+        auto uget = [&](auto&& vv) {
+            if (i == 0) { sink = etl::unchecked_get<0>(etl::forward<decltype(vv)>(vv)); } else if (i == 1) { sink = etl::unchecked_get<1>(etl::forward<decltype(vv)>(vv)); } else { sink = etl::unchecked_get<2>(etl::forward<decltype(vv)>(vv)); }
+        };
         watch(impl, v, [&] {
-            if (o == "sub") {
-                if (i == 0) { sink = v[etl::index_v<0>]; } else if (i == 1) { sink = v[etl::index_v<1>]; } else { sink = v[etl::index_v<2>]; }
-            } else {
-                if (i == 0) { sink = etl::unchecked_get<0>(v); } else if (i == 1) { sink = etl::unchecked_get<1>(v); } else { sink = etl::unchecked_get<2>(v); }
-            }
+            if (o == "sub") { sub(v); }
+            else if (o == "csub") { sub(static_cast<V const&>(v)); }
+            else if (o == "rsub") { sub(etl::move(v)); }
+            else if (o == "crsub") { sub(etl::move(static_cast<V const&>(v))); }
+            else if (o == "uget") { uget(v); }
+            else if (o == "cuget") { uget(static_cast<V const&>(v)); }
+            else if (o == "ruget") { uget(etl::move(v)); }
+            else { uget(etl::move(static_cast<V const&>(v))); }
         });
         doc(ref, i == active);
         return true;
@@ -553,7 +682,7 @@ bool vh::run_case(std::string const& op, Toks& in, Out& impl, Out& ref)
         watch_none(impl, [&] {
             if (op == "day") { sink = static_cast<unsigned>(etl::chrono::day{d}); } else { sink = static_cast<unsigned>(etl::chrono::month{d}); }
         });
-        doc(ref, d < 255U);
+        doc(ref, d <= 255U);   // "may hold any number in [0, 255]"
         return true;
     }
     if (op == "bit") {
@@ -575,14 +704,16 @@ bool vh::run_case(std::string const& op, Toks& in, Out& impl, Out& ref)
         doc(ref, pos < static_cast<u64>(n));
         return true;
     }
-    if (op == "arr") {
+    if (op == "arr" || op == "carr") {
         auto i = in.sz();
         // the array sits inside a larger object so that an unchecked out-of-range access stays inside memory we own
         struct Holder { etl::array<int, 3> a{1, 2, 3}; int pad[8]{}; } h;
-        if (i < 8) { watch(impl, h.a, [&] { sink = h.a[static_cast<std::size_t>(i)]; }); }
+        bool const c = op == "carr";
+        auto get = [&] { sink = c ? static_cast<etl::array<int, 3> const&>(h.a)[static_cast<std::size_t>(i)] : h.a[static_cast<std::size_t>(i)]; };
+        if (i < 8) { watch(impl, h.a, get); }
         else {
 #if defined(TETL_ENABLE_CONTRACT_CHECKS_SAFE)
-            watch(impl, h.a, [&] { sink = h.a[static_cast<std::size_t>(i)]; });
+            watch(impl, h.a, get);
 #else
             impl.tok("ok");   // not executed: without the SAFE check this would be a wild read; the guard is absent in this build mode
 #endif
@@ -608,9 +739,10 @@ bool vh::run_case(std::string const& op, Toks& in, Out& impl, Out& ref)
         watch_none(impl, [&] {
             if (which == "strcpy") { sink = etl::strcpy(d, s) != nullptr; }
             else if (which == "strchr") { sink = etl::strchr(static_cast<char const*>(s), 'a') != nullptr; }
+            else if (which == "strchr_m") { sink = etl::strchr(s, 'a') != nullptr; }
             else { sink = etl::memmove(d, s, 2) != nullptr; }
         });
-        doc(ref, which == "strchr" ? !snull : (!dnull && !snull));
+        doc(ref, (which == "strchr" || which == "strchr_m") ? !snull : (!dnull && !snull));
         return true;
     }
     return false;
